@@ -13,6 +13,8 @@ import (
 	"net"
 	"os"
 	"reflect"
+	"runtime"
+	"runtime/debug"
 	"strings"
 	"sync"
 	"syscall"
@@ -66,6 +68,10 @@ type vh03World struct {
 	errFor string // if set, only calls of this method fail
 	xval   []byte
 	xnames []string
+	ar     *rand.Rand // answers are drawn from here: every call answers different values
+	walkQ  []QID      // QIDs answered by the walk calls of the window, in order
+	walkV  AttrMask   // attributes answered by the last WalkGetAttr / GetAttr of the window
+	walkA  Attr
 	gate   chan struct{} // when set: the next backend RenameAt waits for it (once)
 	inside chan struct{}
 	ans    []vh03Val // the success values answered, flattened field by field
@@ -147,6 +153,42 @@ func vh03Flat(a ...interface{}) []vh03Val {
 	return out
 }
 
+// ---- seeded answers: every backend call answers different values ----
+
+func (w *vh03World) rnd() *rand.Rand {
+	if w.ar == nil {
+		w.ar = rand.New(rand.NewSource(1))
+	}
+	return w.ar
+}
+
+func (w *vh03World) rQID(t QIDType) QID {
+	r := w.rnd()
+	return QID{Type: t, Version: r.Uint32(), Path: vh03U64(r)}
+}
+
+func (w *vh03World) rMask() AttrMask {
+	r := w.rnd()
+	b := func() bool { return r.Intn(2) == 0 }
+	return AttrMask{Mode: true, NLink: b(), UID: b(), GID: b(), RDev: b(), ATime: b(), MTime: b(), CTime: b(), INo: b(), Size: b(), Blocks: b(), BTime: b(), Gen: b(), DataVersion: b()}
+}
+
+func (w *vh03World) rAttr(mode FileMode) Attr {
+	r := w.rnd()
+	return Attr{Mode: mode.FileType() | FileMode(r.Intn(0o10000)), UID: UID(vh03U32(r)), GID: GID(vh03U32(r)), NLink: NLink(vh03U64(r)), RDev: Dev(vh03U64(r)), Size: vh03U64(r),
+		BlockSize: vh03U64(r), Blocks: vh03U64(r), ATimeSeconds: vh03U64(r), ATimeNanoSeconds: vh03U64(r), MTimeSeconds: vh03U64(r), MTimeNanoSeconds: vh03U64(r),
+		CTimeSeconds: vh03U64(r), CTimeNanoSeconds: vh03U64(r), BTimeSeconds: vh03U64(r), BTimeNanoSeconds: vh03U64(r), Gen: vh03U64(r), DataVersion: vh03U64(r)}
+}
+
+func (f *vh03File) qtype() QIDType {
+	if f.mode.IsDir() {
+		return TypeDir
+	} else if f.mode.IsSymlink() {
+		return TypeSymlink
+	}
+	return TypeRegular
+}
+
 func (f *vh03File) qid() QID {
 	t := TypeRegular
 	if f.mode.IsDir() {
@@ -187,29 +229,49 @@ func (f *vh03File) Walk(names []string) ([]QID, File, error) {
 		return nil, c, nil
 	}
 	c := f.child(names[0])
-	return []QID{c.qid()}, c, nil
+	q := f.w.rQID(c.qtype())
+	f.w.mu.Lock()
+	if f.w.record {
+		f.w.walkQ = append(f.w.walkQ, q)
+	}
+	f.w.mu.Unlock()
+	return []QID{q}, c, nil
 }
 
 func (f *vh03File) WalkGetAttr(names []string) ([]QID, File, AttrMask, Attr, error) {
 	if err := f.rec("WalkGetAttr", vh03Names(names)); err != nil {
 		return nil, nil, AttrMask{}, Attr{}, err
 	}
+	var c *vh03File
+	var qs []QID
 	if len(names) == 0 {
-		c := f.w.newFile(f.mode, f.name, f.parent)
-		return nil, c, AttrMask{Mode: true}, Attr{Mode: f.mode}, nil
+		c = f.w.newFile(f.mode, f.name, f.parent)
+	} else {
+		c = f.child(names[0])
+		qs = []QID{f.w.rQID(c.qtype())}
 	}
-	c := f.child(names[0])
-	return []QID{c.qid()}, c, AttrMask{Mode: true}, Attr{Mode: c.mode}, nil
+	v, a := f.w.rMask(), f.w.rAttr(c.mode)
+	f.w.mu.Lock()
+	if f.w.record {
+		f.w.walkQ = append(f.w.walkQ, qs...)
+		f.w.walkV, f.w.walkA = v, a
+	}
+	f.w.mu.Unlock()
+	return qs, c, v, a, nil
 }
 
 func (f *vh03File) GetAttr(req AttrMask) (QID, AttrMask, Attr, error) {
 	if err := f.rec("GetAttr", vh03Mask(req)); err != nil {
 		return QID{}, AttrMask{}, Attr{}, err
 	}
-	a := Attr{Mode: f.mode, UID: 1001, GID: 1002, NLink: 3, RDev: 0x1234567890, Size: 1 << 40, BlockSize: 4096, Blocks: 99, ATimeSeconds: 1 << 33, MTimeNanoSeconds: 999999999, Gen: 5, DataVersion: 6}
-	v := AttrMask{Mode: true, UID: true, GID: true, Size: true, NLink: true}
-	f.setAns(f.qid(), v, a)
-	return f.qid(), v, a, nil
+	q, v, a := f.w.rQID(f.qtype()), f.w.rMask(), f.w.rAttr(f.mode)
+	f.w.mu.Lock()
+	if f.w.record {
+		f.w.walkV, f.w.walkA = v, a
+	}
+	f.w.mu.Unlock()
+	f.setAns(q, v, a)
+	return q, v, a, nil
 }
 
 func (f *vh03File) SetAttr(valid SetAttrMask, attr SetAttr) error {
@@ -219,7 +281,8 @@ func (f *vh03File) StatFS() (FSStat, error) {
 	if err := f.rec("StatFS"); err != nil {
 		return FSStat{}, err
 	}
-	s := FSStat{Type: 0x01021997, BlockSize: 4096, Blocks: 1 << 40, BlocksFree: 1 << 39, BlocksAvailable: 3, Files: 1 << 33, FilesFree: 2, FSID: 1<<63 + 5, NameLength: 255}
+	r := f.w.rnd()
+	s := FSStat{Type: vh03U32(r), BlockSize: vh03U32(r), Blocks: vh03U64(r), BlocksFree: vh03U64(r), BlocksAvailable: vh03U64(r), Files: vh03U64(r), FilesFree: vh03U64(r), FSID: vh03U64(r), NameLength: vh03U32(r)}
 	f.setAns(s)
 	return s, nil
 }
@@ -227,30 +290,33 @@ func (f *vh03File) Open(flags OpenFlags) (QID, uint32, error) {
 	if err := f.rec("Open", vh03N(uint64(flags))); err != nil {
 		return QID{}, 0, err
 	}
-	f.setAns(f.qid(), 8192)
-	return f.qid(), 8192, nil
+	q, u := f.w.rQID(f.qtype()), vh03U32(f.w.rnd())
+	f.setAns(q, u)
+	return q, u, nil
 }
 func (f *vh03File) FSync() error { return f.rec("FSync") }
 func (f *vh03File) Lock(pid int, lt LockType, fl LockFlags, start, length uint64, client string) (LockStatus, error) {
 	if err := f.rec("Lock", vh03N(uint64(pid)), vh03N(uint64(lt)), vh03N(uint64(fl)), vh03N(start), vh03N(length), vh03S(client)); err != nil {
 		return LockStatusError, err
 	}
-	f.setAns(LockStatusBlocked)
-	return LockStatusBlocked, nil
+	st := LockStatus(f.w.rnd().Intn(256))
+	f.setAns(st)
+	return st, nil
 }
 func (f *vh03File) Create(name string, flags OpenFlags, perm FileMode, uid UID, gid GID) (File, QID, uint32, error) {
 	if err := f.rec("Create", vh03S(name), vh03N(uint64(flags)), vh03N(uint64(perm)), vh03N(uint64(uid)), vh03N(uint64(gid))); err != nil {
 		return nil, QID{}, 0, err
 	}
 	c := f.w.newFile(ModeRegular|0o600, name, f)
-	f.setAns(c.qid(), 4096)
-	return c, c.qid(), 4096, nil
+	q, u := f.w.rQID(TypeRegular), vh03U32(f.w.rnd())
+	f.setAns(q, u)
+	return c, q, u, nil
 }
 func (f *vh03File) Mkdir(name string, perm FileMode, uid UID, gid GID) (QID, error) {
 	if err := f.rec("Mkdir", vh03S(name), vh03N(uint64(perm)), vh03N(uint64(uid)), vh03N(uint64(gid))); err != nil {
 		return QID{}, err
 	}
-	q := QID{Type: TypeDir, Version: 1, Path: 1 << 60}
+	q := f.w.rQID(TypeDir)
 	f.setAns(q)
 	return q, nil
 }
@@ -258,7 +324,7 @@ func (f *vh03File) Symlink(oldName, newName string, uid UID, gid GID) (QID, erro
 	if err := f.rec("Symlink", vh03S(oldName), vh03S(newName), vh03N(uint64(uid)), vh03N(uint64(gid))); err != nil {
 		return QID{}, err
 	}
-	q := QID{Type: TypeSymlink, Version: 2, Path: 77}
+	q := f.w.rQID(TypeSymlink)
 	f.setAns(q)
 	return q, nil
 }
@@ -273,7 +339,7 @@ func (f *vh03File) Mknod(name string, mode FileMode, major, minor uint32, uid UI
 	if err := f.rec("Mknod", vh03S(name), vh03N(uint64(mode)), vh03N(uint64(major)), vh03N(uint64(minor)), vh03N(uint64(uid)), vh03N(uint64(gid))); err != nil {
 		return QID{}, err
 	}
-	q := QID{Type: TypeRegular, Version: 3, Path: 78}
+	q := f.w.rQID(QIDType(f.w.rnd().Intn(256)))
 	f.setAns(q)
 	return q, nil
 }
@@ -299,7 +365,12 @@ func (f *vh03File) Readdir(offset uint64, count uint32) (Dirents, error) {
 	if err := f.rec("Readdir", vh03N(offset), vh03N(uint64(count))); err != nil {
 		return nil, err
 	}
-	d := Dirents{{QID: QID{Type: TypeRegular, Path: 5}, Offset: 1, Type: TypeRegular, Name: "x\xffy"}, {QID: QID{Type: TypeDir, Path: 6}, Offset: 1 << 40, Type: TypeDir, Name: "dd"}}
+	r := f.w.rnd()
+	d := Dirents{}
+	for k := r.Intn(4); k > 0; k-- {
+		t := QIDType(r.Intn(256))
+		d = append(d, Dirent{QID: f.w.rQID(t), Offset: vh03U64(r), Type: QIDType(r.Intn(256)), Name: vh03Name(r)})
+	}
 	f.setAns(d)
 	return d, nil
 }
@@ -307,7 +378,7 @@ func (f *vh03File) Readlink() (string, error) {
 	if err := f.rec("Readlink"); err != nil {
 		return "", err
 	}
-	t := "tar\x00get/\xfe"
+	t := vh03Name(f.w.rnd()) + "/" + vh03Name(f.w.rnd())
 	f.setAns(t)
 	return t, nil
 }
@@ -406,7 +477,7 @@ var vh03Ops = []string{"Open", "Create", "Mkdir", "Symlink", "Mknod", "Link", "R
 	"GetAttr", "SetAttr", "StatFS", "FSync", "Lock", "Readdir", "Walk", "SetXattr", "RemoveXattr", "Close"}
 
 func vh03One(t *testing.T, o *vhOut, id int, r *rand.Rand, op string, version int, fail bool) {
-	w := &vh03World{}
+	w := &vh03World{ar: rand.New(rand.NewSource(r.Int63()))}
 	root := w.newFile(ModeDirectory|0o755, "", nil)
 	pr, err := vhclPair(vhclAttacher{func() (File, error) { return root, nil }}, 8192, version)
 	if err != nil {
@@ -420,11 +491,13 @@ func vh03One(t *testing.T, o *vhOut, id int, r *rand.Rand, op string, version in
 	if err != nil {
 		t.Fatalf("C03 attach: %v", err)
 	}
+	vh03Hold(croot, pr)
 	walk := func(name string) *clientFile {
 		_, f, err := croot.Walk([]string{name})
 		if err != nil {
 			t.Fatalf("C03 walk %q: %v", name, err)
 		}
+		vh03Hold(f)
 		return f.(*clientFile)
 	}
 	recvName := map[string]string{"Readlink": "l1", "Create": "d1", "Mkdir": "d1", "Symlink": "d1", "Mknod": "d1", "Link": "d1", "RenameAt": "d1",
@@ -555,7 +628,13 @@ func vh03One(t *testing.T, o *vhOut, id int, r *rand.Rand, op string, version in
 			names = append(names, "d"+vh03Name(r))
 		}
 		params["names"] = vh03Names(names)
-		_, _, cerr = recv.Walk(names)
+		qs, nf, e := recv.Walk(names)
+		cerr = e
+		vh03Hold(nf)
+		if qs == nil {
+			qs = []QID{}
+		}
+		ret = vh03Flat(qs)
 	case "Close":
 		cerr = recv.Close()
 	case "SetXattr":
@@ -567,6 +646,9 @@ func vh03One(t *testing.T, o *vhOut, id int, r *rand.Rand, op string, version in
 	w.record = false
 	log := append([]vh03Call(nil), w.log...)
 	bans := w.ans
+	if op == "Walk" { // what the backend answered for the components, in order
+		bans = vh03Flat(append([]QID{}, w.walkQ...))
+	}
 	w.mu.Unlock()
 	// translate backend handles to fids; Rename/Remove arrive on the parent under the entry's name
 	type outCall struct {
@@ -701,6 +783,7 @@ func vh03Xattr(t *testing.T, o *vhOut, id int, r *rand.Rand, list bool, msize ui
 	if err != nil {
 		t.Fatalf("C03 xattr attach: %v", err)
 	}
+	vh03Hold(croot, cl)
 	var ans vh03Err
 	w.mu.Lock()
 	w.record = true
@@ -751,7 +834,7 @@ func vh03Xattr(t *testing.T, o *vhOut, id int, r *rand.Rand, list bool, msize ui
 
 // vh03Wga: WalkGetAttr at every version (below 2: Walk + GetAttr, Close when GetAttr failed).
 func vh03Wga(t *testing.T, o *vhOut, id int, r *rand.Rand, version int, ncomp int, getattrFails bool) {
-	w := &vh03World{}
+	w := &vh03World{ar: rand.New(rand.NewSource(r.Int63()))}
 	root := w.newFile(ModeDirectory|0o755, "", nil)
 	pr, err := vhclPair(vhclAttacher{func() (File, error) { return root, nil }}, 8192, version)
 	if err != nil {
@@ -766,6 +849,7 @@ func vh03Wga(t *testing.T, o *vhOut, id int, r *rand.Rand, version int, ncomp in
 	if err != nil {
 		t.Fatalf("C03 wga walk: %v", err)
 	}
+	vh03Hold(croot, d, pr)
 	recv := d.(*clientFile)
 	var names []string
 	for i := 0; i < ncomp; i++ {
@@ -778,11 +862,19 @@ func vh03Wga(t *testing.T, o *vhOut, id int, r *rand.Rand, version int, ncomp in
 		w.errFor = "GetAttr"
 	}
 	w.mu.Unlock()
-	_, nf, _, _, cerr := recv.WalkGetAttr(names)
+	qs, nf, gv, ga, cerr := recv.WalkGetAttr(names)
+	vh03Hold(nf)
 	w.mu.Lock()
 	w.record = false
 	log := append([]vh03Call(nil), w.log...)
+	ans := vh03Flat(append([]QID{}, w.walkQ...), w.walkV, w.walkA)
 	w.mu.Unlock()
+	ret := []vh03Val{}
+	if cerr == nil {
+		ret = vh03Flat(append([]QID{}, qs...), gv, ga)
+	} else {
+		ans = []vh03Val{}
+	}
 	var calls []map[string]interface{}
 	target := -1
 	for _, c := range log {
@@ -805,7 +897,7 @@ func vh03Wga(t *testing.T, o *vhOut, id int, r *rand.Rand, version int, ncomp in
 		newfid = uint64(nf.(*clientFile).fid)
 	}
 	o.Emit(map[string]interface{}{"kind": "wga", "id": id, "version": version, "names": vh03Names(names), "fid": uint64(recv.fid), "newfid": newfid,
-		"getattr_fails": getattrFails, "calls": calls, "err": vhclClassify(cerr)})
+		"getattr_fails": getattrFails, "calls": calls, "err": vhclClassify(cerr), "ret": ret, "ans": ans})
 }
 
 // vh03Rename2: "Rename arrives as RenameAt on the parent under the entry's CURRENT name": the entry is renamed
@@ -823,11 +915,13 @@ func vh03Rename2(t *testing.T, o *vhOut, id int, r *rand.Rand, version int, raci
 	if err != nil {
 		t.Fatalf("C03 rename2 attach: %v", err)
 	}
+	vh03Hold(croot, pr)
 	walk := func(name string) *clientFile {
 		_, f, err := croot.Walk([]string{name})
 		if err != nil {
 			t.Fatalf("C03 rename2 walk: %v", err)
 		}
+		vh03Hold(f)
 		return f.(*clientFile)
 	}
 	recv := walk("f1") // handle 1
@@ -895,9 +989,18 @@ func vh03Rename2(t *testing.T, o *vhOut, id int, r *rand.Rand, version int, raci
 		"msize": pr.c.messageSize, "calls": calls, "err": vhclClassify(err), "fail": false, "ret": []vh03Val{}, "ans": []vh03Val{}})
 }
 
+// vh03Keep holds every client handle made by the harness until the test ends: clientFile has a finalizer
+// that clunks it, and a finalizer running inside a recording window would add backend calls (Close) the
+// operation under test never made.  The collector is also switched off for the duration of the test.
+var vh03Keep []interface{}
+
+func vh03Hold(x ...interface{}) { vh03Keep = append(vh03Keep, x...) }
+
 func TestVerifC03(t *testing.T) {
 	o := vhOpen(t)
 	defer o.Close()
+	defer debug.SetGCPercent(debug.SetGCPercent(-1))
+	defer func() { runtime.KeepAlive(vh03Keep); vh03Keep = nil }()
 	r := vhRand()
 	reps := 1
 	if vhThorough() {
